@@ -9,7 +9,7 @@
 open Model
 open Util
 
-let parse_call (tok : string) : call =
+let parse_call (tok : string) : kcall =
   match String.split_on_char ':' tok with
   | ["R"; id; f] -> CRegister (n_of_dec id, n_of_dec f)
   | ["G"; f] -> CRegFile (n_of_dec f)
